@@ -1,0 +1,57 @@
+//go:build verif
+
+// Contracts of package elf for the gocv verifier (property C20).
+// Comment-only: no Go code is compiled from this file.
+//
+// debug/elf is behind an assumed contract: elf.Open returns an error or a File
+// whose header fields, sections and program headers hold arbitrary values;
+// Section.Data returns an error or Size bytes; io.ReadAll(Prog.Open())
+// returns an error or at most Filesz bytes.
+//
+// elf_file(t): the file elf.Open will return has header type t (0 none,
+// 1 relocatable, 2 executable, 3 shared object, 4 core). elf_parser(l): a
+// Parser over a file with the sections / program headers of the l-th layout of
+// the corpus (types, flags, addresses, in-memory sizes and bytes arbitrary).
+
+package elf
+
+//@ func NewParser
+//@   enum t in ELFTYPES
+//@   input:filename "program.elf"
+//@   requires elf_file(t)
+//@   ensures[rejects-none-relocatable-core] (result1 != nil) == (elf_open_failed() || t == 0 || t == 1 || t == 4)
+//@   ensures[holds-the-file] result1 == nil ==> parser_holds_file(result0)
+
+// sections_overlap(): two sections that belong to the code image (PROGBITS,
+// Size > 0, Addr != 0, SHF_EXECINSTR) share an address. code_image_exact(m):
+// the blocks of m are exactly those sections, each with its address and its
+// bytes, sorted by address, not overlapping.
+
+//@ func (*Parser).MachineCode
+//@   enum l in SECLAYOUTS
+//@   input:p elf_parser(l)
+//@   ensures[overlapping-sections-rejected] sections_overlap() ==> result1 != nil
+//@   ensures[exact-code-image] result1 == nil ==> code_image_exact(result0)
+
+// segments_sane(): no segment is larger than 2^40 bytes or wraps around the
+// address space (the allocation obligation of make is checked without this
+// precondition). segments_exact(m): the blocks of m are exactly the PT_LOAD
+// segments: address Vaddr, Memsz bytes, the bytes read from the file followed
+// by zeros; sorted, not overlapping.
+
+//@ func (*Parser).Memory
+//@   enum l in PROGLAYOUTS
+//@   input:p elf_parser(l)
+//@   ensures[overlapping-segments-rejected] segments_sane() && segments_overlap() ==> result1 != nil
+//@   ensures[exact-program-memory] segments_sane() && result1 == nil ==> segments_exact(result0)
+
+// elf_memory(n1, n2, n3): a Memory of blocks of the given lengths (a negative
+// length omits the block) at arbitrary sorted, non-overlapping addresses.
+// lookup_exact(r, addr): r is the part from addr to the end of the block that
+// contains addr, or nil when no block does.
+
+//@ func (*Memory).Address
+//@   enum n1 in MEMSHAPES, n2 in MEMSHAPES
+//@   input:m elf_memory(n1, n2 - 1, 2)
+//@   ensures[suffix-of-containing-block-or-nil] lookup_exact(result, addr)
+//@   ensures[reads-only] heap_unchanged()
